@@ -70,7 +70,11 @@ class Vector:
         result_vector = SymVector.zero
         base_vectors = self.coordinate_system.coord_system.base_vectors()
         for idx in range(min(len(base_vectors), len(self.components))):
-            result_vector = result_vector + base_vectors[idx] * self.components[idx]
+            component = self.components[idx]
+            # SymPy fails to multiply a base vector by a floating-point zero
+            if sympify(component).is_zero:
+                continue
+            result_vector = result_vector + base_vectors[idx] * component
         return result_vector
 
     # Convert vector coordinate system to new basis and construct new vector.
